@@ -55,6 +55,7 @@ def run(tier, seed):
     outcome = {}
     try:
         jobs = []
+        per_scen = {}
         dry_files = {}
         for si, (name, case) in enumerate(scen):
             d = sysutil.prepare_dir(base, 'dry%d' % si, case, {})
@@ -66,7 +67,7 @@ def run(tier, seed):
             dry_files[si] = sysutil.final_files(d, case)
             ws = [e for e in sl if e['call'] in ('write', 'writev')]
             for e in ws:
-                if out_id(e['path'], case['id']) == 'rec':
+                if out_id(e['path'], case['id']) in ('rec', 'recr'):
                     continue                 # never fault the healthy recovery destination
                 if e['req'] == 0:
                     continue                 # a zero-length write cannot lose bytes
@@ -77,6 +78,7 @@ def run(tier, seed):
                     plans += [dict(mode='fault', k=k, err='EIO', persist=False), dict(mode='fault', k=k, err='short', short=0, persist=False), dict(mode='fault', k=k, err='short', short=max(1, e['req'] - 1), persist=True)]
                 for pl in plans:
                     jobs.append((si, pl))
+                    per_scen[name] = per_scen.get(name, 0) + 1
 
         def fault_job(job):
             si, pl = job
@@ -146,8 +148,21 @@ def run(tier, seed):
                 if not wb or 'exc' in wb[0]:
                     vs.append(Violation(PROP, '%s:recovery-write-failed:%s:%s:%s' % (PROP, kind, comp, how), 'scenario %s: write_block() after the recovery rotation failed: %s' % (name, wb[0].get('what') if wb else None), payload))
                     continue
-                fn = '%s_rec%s' % (case['id'], sysutil.suffix(comp) if kind == 'name' else '')
+                last_open = [e['opens'] for e in rec_rot if 'exc' not in e][-1]
+                fn = '%s_%s%s' % (case['id'], last_open, sysutil.suffix(comp) if kind == 'name' else '')
                 data = files.get(fn)
+                # an output opened during recovery and closed again without a block must not have received any data
+                stale = False
+                for f2, d2 in files.items():
+                    if f2 != fn and out_id(f2, case['id']) in ('rec', 'recr') and not f2.endswith('.part'):
+                        try:
+                            if pipeline.decompress(comp, d2) != b'':
+                                stale = True
+                        except pipeline.StreamError:
+                            stale = True
+                if stale:
+                    vs.append(Violation(PROP, '%s:stale-data-in-new-output:%s:%s:%s' % (PROP, kind, comp, how), 'scenario %s: the output opened by the (throwing) recovery rotation received data although no block was written to it' % name, payload))
+                    continue
                 want = None
                 if origin in BUF_OPS and log[first].get('phase') == 'main':
                     want = retained_block(case, log[first]['i'])
@@ -176,7 +191,7 @@ def run(tier, seed):
                 outcome['reported+recovered'] = outcome.get('reported+recovered', 0) + 1
     finally:
         runner.cleanup(base)
-    obs = dict(scenarios=len(scen), fault_runs=len(jobs), runs_with_fault_injected=injected_runs, runs_where_an_api_call_threw=exc_seen, runs_recovered_into_valid_file=recovered, outcomes=outcome)
+    obs = dict(scenarios=len(scen), fault_runs=len(jobs), fault_runs_per_scenario=per_scen, runs_with_fault_injected=injected_runs, runs_where_an_api_call_threw=exc_seen, runs_recovered_into_valid_file=recovered, outcomes=outcome)
     cov = dict(evaluations=len(jobs), distinct_nontrivial=injected_runs,
                rule='scenarios ({plain,gzip,xz} x {name,fd} x {single, 3 rotations, destruction +- buffered data}) each followed by the recovery script rotate_output(healthy, false) [retried once] + write_block(); '
                     'for EVERY write/writev k of the scenario (interposed in the driver): ENOSPC / EIO / short count, once or persistently for that destination; non-trivial = the fault was really injected; '
